@@ -147,6 +147,12 @@ func (cl call) value() interface{} {
 		return tokMarshaler{cl.toks}
 	case cl.form == "writerto":
 		return tokWriterTo{cl.toks}
+	case cl.form == "xmlm":
+		return tokXMLMarshaler{cl.toks}
+	case cl.form == "xmlmp":
+		return &tokXMLMarshalerP{cl.toks}
+	case cl.form == "wrapm":
+		return wrapOf(cl.toks)
 	case strings.HasPrefix(cl.form, "struct:big"):
 		return bigValue(cl.form[7:])
 	case strings.HasPrefix(cl.form, "struct:"):
@@ -637,7 +643,9 @@ func (c *ctxT) one(cfg cfgT, cl call, class string) {
 	r.Case(line, status == "ok", class+"/"+cl.entry+"/"+strings.SplitN(cl.form, ":", 2)[0]+"/"+status)
 }
 
-var forms = []string{"reader", "marshaler", "writerto"}
+// value forms: how the argument of Encode/EncodeElement is handed over.  xmlm / xmlmp: a value
+// whose ONLY encoding method is MarshalXML (value / pointer receiver), see roundd.go
+var forms = []string{"reader", "marshaler", "writerto", "xmlm", "xmlmp"}
 
 func (c *ctxT) genCall(rnd *common.Rand, big int) call {
 	entry := pickS(rnd, []string{"send", "send", "sendel", "enc", "enc", "encel", "encel", "tw", "iq", "msg", "pres", "reply", "replyel"})
@@ -679,6 +687,17 @@ func (c *ctxT) genCall(rnd *common.Rand, big int) call {
 		} else {
 			cl.form = forms[rnd.Intn(len(forms))]
 			cl.toks = genElement(rnd, 0, true, big)
+			if cl.form == "xmlm" && rnd.Chance(1, 3) {
+				// the same element as a field of a plain struct
+				cl.form = "wrapm"
+				cl.toks = wrapToks(genElement(rnd, 1, false, big))
+			}
+			if printsItself(cl.form) {
+				cl.toks = consistentNs(cl.toks)
+				if entry == "encel" || entry == "replyel" {
+					cl.toks = resolveInherit(cl.toks)
+				}
+			}
 		}
 		if entry == "encel" || entry == "replyel" {
 			name := genName(rnd, true)
@@ -729,6 +748,7 @@ func (c *ctxT) genCall(rnd *common.Rand, big int) call {
 }
 
 func pickS(r *common.Rand, l []string) string { return l[r.Intn(len(l))] }
+func pickInt(r *common.Rand, l []int) int     { return l[r.Intn(len(l))] }
 
 // ---- concurrent runs -----------------------------------------------------------------
 
@@ -794,7 +814,7 @@ func (c *ctxT) concurrent(cfg cfgT, rnd *common.Rand, nG, nK int, caseNo int) {
 					big = 3000 + rnd.Intn(9000)
 				}
 				cl = c.genCall(rnd, big)
-				if cl.entry == "reply" || cl.entry == "replyel" || strings.HasPrefix(cl.form, "struct:") {
+				if cl.entry == "reply" || cl.entry == "replyel" || strings.HasPrefix(cl.form, "struct:") || cl.form == "wrapm" {
 					continue
 				}
 				if loc, ok := map[string]string{"iq": "iq", "msg": "message", "pres": "presence"}[cl.entry]; ok {
@@ -1109,6 +1129,25 @@ func Run(r *common.Run) error {
 				}
 				continue
 			}
+			if len(f) == 15 && f[0] == "C05" && f[1] == "wfault" {
+				cl := call{entry: f[4], form: f[7]}
+				if f[5] != "-" {
+					if st, err := decToks(f[5]); err == nil && len(st) == 1 {
+						if s, ok := st[0].(xml.StartElement); ok {
+							cl.start = &s
+						}
+					}
+				}
+				ts, err := decToks(f[6])
+				at, _ := strconv.Atoi(f[9])
+				n, _ := strconv.Atoi(f[10])
+				if err == nil {
+					cl.toks = ts
+					c.wfault(mkCfg(f[2], f[3]), cl, at, n, f[11])
+					executed++
+				}
+				continue
+			}
 			if len(f) == 6 && f[0] == "C05" && f[1] == "reuse" {
 				c.reuse(mkCfg(f[2], f[3]), f[4], strings.Split(f[5], ","))
 				executed++
@@ -1198,6 +1237,10 @@ func Run(r *common.Run) error {
 	for _, cfg := range cfgs {
 		c.behindCorpus(cfg)
 	}
+	r.Mark("case one write of the transport answered with a fault")
+	for _, cfg := range cfgs {
+		c.wfaultCorpus(cfg)
+	}
 	r.Mark("case token writer handles used after Close")
 	c.reuseAll()
 	r.Exhaustive = append(r.Exhaustive, "every program of length <= 3 over {EncodeToken, Flush, Close} on a closed token writer handle x {no holder (without Close), a second handle idle, a second handle mid-element} x session configuration")
@@ -1242,6 +1285,31 @@ func Run(r *common.Run) error {
 		cl = noForeign(cfg, cl)
 		k := 1 + rnd.Intn(len(toks)-1)
 		c.behind(cfg, pickS(rnd, []string{"fail", "finish", "twfail", "encfail"}), rnd.Intn(k+1), k, toks, cl)
+	}
+	nW := r.Pick(200, 3000)
+	for i := 0; i < nW; i++ {
+		cfg := cfgs[rnd.Intn(len(cfgs))]
+		big := 0
+		if i%3 == 0 {
+			big = 3000 + rnd.Intn(20000) // several transport writes
+		}
+		var cl call
+		for {
+			cl = c.genCall(rnd, big)
+			if cl.entry == "reply" || cl.entry == "replyel" || cl.entry == "iq" || cl.form == "writerto" || foreignRawStanza(cfg, cl.denoted()) {
+				continue // handler replies are written by Serve; WriterTo values are not flushed by Encode (known finding)
+			}
+			break
+		}
+		at := 0
+		if big > 0 {
+			at = rnd.Intn(2 + big/4096)
+		}
+		n := pickInt(rnd, []int{0, 1, 2, 17, 100, 1000, 4095, 4096, 1 << 20})
+		if rnd.Chance(1, 2) {
+			n = rnd.Intn(300)
+		}
+		c.wfault(cfg, cl, at, n, pickS(rnd, wfaultKinds))
 	}
 	nConc := r.Pick(30, 300)
 	for i := 0; i < nConc; i++ {
